@@ -16,6 +16,7 @@ anchored calls looked into (`c01.normalised`).
 from __future__ import annotations
 
 import ast
+import re
 import copy
 
 import sympy as sp
@@ -165,6 +166,17 @@ def _classify(path, X, T, ex=None):
     return cls, foreign
 
 
+def _own_calls(q):
+    stack = [q]
+    while stack:
+        x = stack.pop()
+        if isinstance(x, ast.Call):
+            yield x
+        for c in ast.iter_child_nodes(x):
+            if not isinstance(c, (ast.FunctionDef, ast.AsyncFunctionDef, ast.ClassDef, ast.Lambda)):
+                stack.append(c)
+
+
 def rules(chk: Check) -> None:
     S = chk.src
     chk.src.cls(TH)
@@ -262,6 +274,40 @@ def rules(chk: Check) -> None:
     # ---------------- R10.4 / R10.6(b) ---------------------------------------
     fi = S.func(f"{TH}.setExtrapolate")
     chk.touch(fi.name)
+    # R10.6(c): the range ends are refreshed BEFORE the matching evaluates p / w / csq at them: those functions choose the table branch or the
+    # extrapolation branch by comparing with self.TMin* / self.TMax*, so with stale ends the new template is matched to the old extrapolation
+    from ..flow import CFG as _CFG
+    g_ = _CFG(fi.node)
+    eos = re.compile(r"^(p|dp|ddp|w|e|de|csq)(HighT|LowT)$")
+    nested_eos = {f.node.name for f in S.modules[fi.module].funcs.values() if f.parent is fi
+                  and any(isinstance(c_, ast.Call) and isinstance(c_.func, ast.Attribute) and eos.match(c_.func.attr or "") for c_ in ast.walk(f.node))}
+
+    def evaluates_eos(q) -> bool:
+        for c_ in _own_calls(q):
+            f_ = c_.func
+            if isinstance(f_, ast.Attribute) and isinstance(f_.value, ast.Name) and f_.value.id == "self" and eos.match(f_.attr):
+                return True
+            if isinstance(f_, ast.Name) and f_.id in nested_eos:
+                return True
+        return False
+
+    def stores(q, attr) -> bool:
+        if not isinstance(q, (ast.Assign, ast.AnnAssign)):
+            return False
+        tg = q.targets if isinstance(q, ast.Assign) else [q.target]
+        return any(isinstance(x, ast.Attribute) and x.attr == attr and isinstance(x.value, ast.Name) and x.value.id == "self" and isinstance(x.ctx, ast.Store)
+                   for t in tg for x in ast.walk(t))
+
+    users = [q for q in g_.nodes if g_.kind.get(q) not in ("def", "handler") and evaluates_eos(q)]
+    late = []
+    for X in PHASES:
+        for tag in ("Min", "Max"):
+            attr = f"T{tag}{X}"
+            for q in users:
+                if not g_.must_pass(_CFG.ENTRY, q, lambda z, attr=attr, q=q: z is not q and stores(z, attr)):
+                    late.append(f"self.{attr} not yet refreshed at line {getattr(q, 'lineno', '?')}")
+    chk.ob("R10.6", fi.where(), "setExtrapolate refreshes the four range ends before it evaluates p / w / csq at them (the table-or-template branch of "
+           "those functions is chosen by the stored ends)", bool(users) and not late, "; ".join(sorted(set(late)))[:300], key="refresh-before-matching")
     ps = exu.paths(fi)
     if len(ps) != 1:
         raise Undecided("setExtrapolate: expected straight-line code")
